@@ -723,3 +723,6 @@ Definition run_smart2 (r p : gr) (eo : list (N * N)) (core reindex explicit_h : 
 
 (** no implicit hydrogens anywhere (a reaction centre as get_rc returns it: the hcount key is dropped) *)
 Definition hc_free (g : gr) : bool := forallb (fun p : N * natt => dflt (a_hc (snd p)) 0 <=? 0) (gnodes g).
+
+Definition run_its4 (its : gr) (core reindex explicit_h : bool) : tok :=
+  L [run_its3 its core reindex explicit_h; tbool (hc_free (if core then get_rc its else its))].
